@@ -28,6 +28,7 @@ type stNode struct {
 	Pos    string `json:"pos"`
 	Z      int    `json:"z"`
 	Opac   bool   `json:"opac"`
+	Mirror bool   `json:"mirror"`
 	Clip   bool   `json:"clip"`
 }
 
@@ -102,6 +103,9 @@ func c16HTML(s *stScn) string {
 		if n.Clip {
 			st += "overflow:hidden;"
 		}
+		if n.Mirror {
+			st += "transform:scaleX(-1);"
+		}
 		fmt.Fprintf(&b, `<div id="n%d" style="%s">t%dx `, i, st, i)
 		for j := i + 1; j <= len(s.Nodes); j++ {
 			if s.Nodes[j-1].Parent == i {
@@ -157,6 +161,18 @@ func c16Main(args []string) int {
 		}
 		// projection of the backend calls to paint events: a fill is a Paint following SetColorRgba(non-stroke) of a box colour
 		var got []stEv
+		var gotSign []int        // orientation (sign of the determinant) of the transformation in force at each event
+		sign := map[int][]int{}  // canvas id -> stack of orientations
+		baseSign := map[int]int{}
+		curSign := func(c int) int {
+			if st := sign[c]; len(st) > 0 {
+				return st[len(st)-1]
+			}
+			if b, ok := baseSign[c]; ok {
+				return b
+			}
+			return 1
+		}
 		var gotClips [][]c16Rect // the clips in force at each event
 		fill := map[int]int{}    // canvas id -> node of the current fill colour (0 = none)
 		path := map[int]*c16Rect{}
@@ -183,12 +199,24 @@ func c16Main(args []string) int {
 			switch e.Op {
 			case "Save":
 				frames[e.C] = append(frames[e.C], nil)
+				sign[e.C] = append(sign[e.C], curSign(e.C))
 			case "Restore":
 				if len(frames[e.C]) > 1 {
 					frames[e.C] = frames[e.C][:len(frames[e.C])-1]
 				}
+				if len(sign[e.C]) > 0 {
+					sign[e.C] = sign[e.C][:len(sign[e.C])-1]
+				}
+			case "Transform":
+				if len(e.N) == 6 && e.N[0]*e.N[3]-e.N[1]*e.N[2] < 0 {
+					if len(sign[e.C]) == 0 {
+						sign[e.C] = []int{curSign(e.C)}
+					}
+					sign[e.C][len(sign[e.C])-1] *= -1
+				}
 			case "NewGroup":
 				if len(e.I) == 1 {
+					baseSign[e.I[0]] = curSign(e.C)
 					base[e.I[0]] = active(e.C)
 				}
 			case "Rectangle":
@@ -216,6 +244,7 @@ func c16Main(args []string) int {
 					ev := stEv{"bg", n}
 					if len(got) == 0 || got[len(got)-1] != ev { // a background split over several rectangles
 						got = append(got, ev)
+						gotSign = append(gotSign, curSign(e.C))
 						gotClips = append(gotClips, active(e.C))
 					}
 				}
@@ -226,6 +255,7 @@ func c16Main(args []string) int {
 					for _, w := range strings.Fields(string(t)) {
 						if _, err := fmt.Sscanf(w, "t%dx", &n); err == nil {
 							got = append(got, stEv{"text", n})
+							gotSign = append(gotSign, curSign(e.C))
 							gotClips = append(gotClips, active(e.C))
 						}
 					}
@@ -236,8 +266,35 @@ func c16Main(args []string) int {
 		seen := map[stEv]bool{}
 		var first []stEv
 		body := doc[strings.Index(doc, "<body>"):]
+		// a transform applies to the whole sub-tree of its box and to nothing else: the orientation in force when a box is painted
+		// is the orientation of the page, reversed once for each reflecting box among the box and its ancestors
+		refl := func(n int) int {
+			k := 0
+			for ; n >= 1 && n <= len(s.Nodes); n = s.Nodes[n-1].Parent {
+				if s.Nodes[n-1].Mirror {
+					k++
+				}
+			}
+			return k
+		}
+		pageSign := 0
 		for k, e := range got {
 			if !seen[e] {
+				if e.N >= 1 && e.N <= len(s.Nodes) {
+					want := gotSign[k]
+					if refl(e.N)%2 == 1 {
+						want = -want
+					}
+					if refl(e.N) > 0 {
+						out.Count("transform-scopes-checked")
+					}
+					if pageSign == 0 {
+						pageSign = want
+					} else if want != pageSign {
+						out.Disagree("C16:transform-scope:"+c16Class(&s, e.N), fmt.Sprintf("%s: %s%d is painted under %d reflection(s) of the page orientation, its box and ancestors declare %d", body, e.E, e.N, map[bool]int{true: 0, false: 1}[gotSign[k] == pageSign], refl(e.N)),
+							map[string]interface{}{"doc": doc, "scenario": json.RawMessage(line)})
+					}
+				}
 				seen[e] = true
 				first = append(first, e)
 				// overflow: every clipping ancestor's padding box is among the clips in force
@@ -310,6 +367,9 @@ func c16Class(s *stScn, i int) string {
 	}
 	if n.Opac {
 		c += "-opacity"
+	}
+	if n.Mirror {
+		c += "-transform"
 	}
 	return c
 }
